@@ -201,8 +201,20 @@ def session(rng, ops, wild):
     for t in tris:
         ops.append('tri %d %d %d %d' % t)
     all_edges = sorted({e for t in tets for e in tet_edges(t)})
+    quadcase = None
     if wild and len(tets) >= 2 and rng.random() < 0.6:  # free triangle: its sides get any mark pattern
         a, b, c = rng.sample(range(n), 3)
+        inner = {}
+        for t in tets:
+            for f in F2N:
+                inner.setdefault(frozenset(t[i] for i in f), []).append([v for v in t if v not in [t[i] for i in f]][0])
+        pairs = [(sorted(f), ap) for f, ap in sorted(inner.items(), key=lambda x: sorted(x[0])) if len(ap) == 2]
+        if pairs and rng.random() < 0.7:  # (apex, face vertex, apex): two sides are tet edges, the third is not
+            f, ap = rng.choice(pairs)
+            x = rng.choice(f)
+            r = rng.randrange(3)
+            a, b, c = ([ap[0], x, ap[1]] * 2)[r:r + 3]
+            quadcase = [(ap[0], x), (x, ap[1])]
         ops.append('tri %d %d %d %d' % (a, b, c, 5))
         tris = tris + [(a, b, c, 5)]
     for e in edgs:
@@ -213,7 +225,13 @@ def session(rng, ops, wild):
     ops.append('begin')
     # marks
     mode = rng.choice(['rand', 'rand', 'pattern', 'pattern', 'pattern', 'all', 'few'])
-    if mode == 'rand':
+    if quadcase and rng.random() < 0.7:
+        mode = 'quad'
+        for e in quadcase:
+            ops.append('mark %d %d' % e)
+    if mode == 'quad':
+        pass
+    elif mode == 'rand':
         p = rng.choice([0.1, 0.3, 0.6])
         for e in all_edges:
             if rng.random() < p:
@@ -230,7 +248,7 @@ def session(rng, ops, wild):
             es = tet_edges(t)
             for k in pat:
                 ops.append('mark %d %d' % es[k])
-    if wild:
+    if wild and mode != 'quad':
         for t in tris[-1:]:
             for i in range(3):
                 if rng.random() < 0.6:
